@@ -33,6 +33,7 @@ CheckRecv(T, e) ==
   IF q = <<>> THEN "recv:nothing-queued"
   ELSE LET p == Head(q)  fits == RecvFits(p, ReqOf(e))  k == p.m.nfds IN
     IF Out(e) = "rej" /\ fits THEN "recv:refused-although-it-fits"
+    ELSE IF Out(e) = "ok" /\ p.bad THEN "recv:rejected-packet-was-delivered"
     ELSE IF Out(e) = "ok" /\ ~fits THEN "recv:delivered-although-it-does-not-fit"
     ELSE IF Out(e) = "rej" THEN (IF e.handed # 0 \/ e.fdd # 0 THEN "recv:rejected-message-leaks-descriptors" ELSE "")
     ELSE IF layer = "raw" /\ p.m.len = 0 /\ ~(e.n = 1 /\ e.zero1) THEN "recv:wrong-bytes"
@@ -57,7 +58,12 @@ CheckProbe(T, e) ==
   ELSE IF ~e.empty /\ q = <<>> THEN "probe:refused-message-was-delivered"
   ELSE ""
 
+\* a packet that is not a protocol message was put on the connection by the driver (must have worked)
+BadOf(T, e) == [id |-> e.id, len |-> 0, val |-> 1, nfds |-> e.nfds, fds |-> e.f0, cred |-> <<>>, typ |-> "C"]
+CheckInject(T, e) == IF e.err # "" \/ layer # "gob" THEN "inject:harness" ELSE IF e.fdd # 0 THEN "inject:descriptor-count-changed" ELSE ""
+
 Check(T, e) == CASE e.op = "send"  -> CheckSend(T, e)
+                 [] e.op = "inject" -> CheckInject(T, e)
                  [] e.op = "recv"  -> CheckRecv(T, e)
                  [] e.op = "probe" -> CheckProbe(T, e)
                  [] e.op = "inspect" -> CheckInspect(T, e)
@@ -88,6 +94,7 @@ TStep ==
                 [] e.op = "recv" -> /\ Recv(ReqOf(e), Out(e))
                                     /\ (Out(e) # RecvImpl(Head(q), ReqOf(e)) => TLCSet(N + t, 1))
                 [] e.op = "inspect" -> Inspect(e.j)
+                [] e.op = "inject" -> Inject(BadOf(T, e))
                 [] OTHER -> UNCHANGED svars
      \/ /\ l = Len(T.ev) + 1          \* after the last event: both ends closed, nothing may be left open
         /\ T.endleak = 0
